@@ -20,7 +20,7 @@ STUBS = ["none"]
 ASSUMPTIONS = ["names exclude the double quote, backslash, CR, LF and '%22' (the header syntax cannot carry them), as the property states",
                "payloads do not contain '--' + boundary (no encoder can carry a delimiter look-alike)"]
 OUTSIDE = ["urlencoded forms and query strings (urllib.parse)", "EnvironBuilder / test client plumbing (temp files, random boundary)", "code points above U+07FF in names",
-           "per-part charset decoding of field values (MultiPartParser; ASCII identity is covered by C01)"]
+           "field values longer than 2 (3) code points through MultiPartParser"]
 
 SHAPES = {"field": ["field"], "file": ["file"], "field+file": ["field", "file"], "file+field-same-name": ["file", "field"], "two-fields": ["field", "field"]}
 
@@ -108,9 +108,31 @@ def make_stubs():
     return st
 
 
+def body_field_text(I, X, n=1, buffer_size=7, maxcp=0x7FF):
+    """a text field whose value is n solver code points, UTF-8 encoded into a multipart body
+    and parsed by formparser.MultiPartParser reading buffer_size bytes at a time: the form
+    value is the text, wherever the read boundaries fall inside a multi-byte character"""
+    from harness.c01 import run_parser
+
+    text = X.str("value", n, minlen=n, maxcp=maxcp)
+    X.assume(pall_in(text, [(0, 0xD7FF), (0xE000, 0x10FFFF)]))
+    # '\r\n--b' inside the value would be a delimiter; keep CR / '-' out (covered by C01)
+    X.assume(pnone_in(text, [13, 10, 0x2D]))
+    raw = text.encode("utf-8")
+    body = pconcat(b'--b\r\nContent-Disposition: form-data; name="a"\r\n\r\n', raw, b"\r\n--b--\r\n")
+    err, fields, files, _ = run_parser(I, b"b", body, buffer_size)
+    ok = err is None and len(fields) == 1 and len(files) == 0 and fields[0][0] == "a" and bool(peq(fields[0][1], text))
+    return ok, {"err": err, "fields": fields}
+
+
 def obligations(tier, seed):
     out = []
     quick = tier == "quick"
+    for n, maxcp in ([(1, 0x7FF), (2, 0x7FF), (1, 0x10FFFF)] if quick else [(1, 0x7FF), (2, 0x7FF), (3, 0x7FF), (1, 0x10FFFF), (2, 0x10FFFF)]):
+        for bs in range(44, 56) if quick else range(1, 60):
+            out.append({"name": f"field_text[n={n},maxcp={maxcp:#x},buffer_size={bs}]", "body": "body_field_text",
+                        "params": {"n": n, "buffer_size": bs, "maxcp": maxcp},
+                        "opts": {"budget_s": 900, "ctx": {"max_cp": maxcp, "loop_bound": 1000}}})
     # (urlencoded forms: body_urlencoded interprets urllib.parse.parse_qsl from its source, but its
     # path count is out of reach even for one character -- not registered, outside the claim)
     # chunked decoding of the encoder's output with a realistic boundary
